@@ -28,7 +28,7 @@ const (
 	EvUpdIn  = 17 // management op from inside a rule: C = op index
 	EvKey    = 18 // forRange loop key seen by the loop body  C = key
 	EvObj    = 19 // method invoked on an object kept in a local  C = the object's mark
-	EvAlias  = 22 // locals bound from injected slots and updated in place  C = 1: a local has a wrong value, 2: the injected slot changed; C = 4: about to assign the plain name ov; C = 8+16p: the next statement (section p) may fail
+	EvAlias  = 22 // locals bound from injected slots and updated in place  C = 1: a local has a wrong value, 2: the injected slot changed; C = 4: about to assign the plain name ov; C = 8+16p: the next statement (section p) may fail; C = 16: a by-value api entry holds another request's value
 	EvCallB  = 20 // API call invoked          B = method, C = client
 	EvCallR  = 21 // API call returned         B = method, C = flags (1 err, 2 panic)
 	EvMgmtB  = 30 // management op invoked     A = op index
@@ -228,6 +228,28 @@ func (h *H) Pt(r int64) Pt { return Pt{X: r, Y: 1} }
 // did is read off the events that follow.
 func (h *H) M(r, p int64) { simrt.Emit(EvAlias, int64(h.c.Idx), r, 8+p*16) }
 
+// Acc receives the counter of a three-round loop.
+func (h *H) Acc(r, n int64) {
+	c := int64(0)
+	if n != 3 {
+		c = 1
+	}
+	simrt.Emit(EvAlias, int64(h.c.Idx), r, c)
+}
+
+// ApiValue is what the pool's api map holds under QA (by value).
+const ApiValue = 4242
+
+// ApiIs receives the by-value api entry QA as a rule finds it: the constructor's value, or what a rule of this
+// very request assigned (if the library lets rules assign to it at all).
+func (h *H) ApiIs(r, v int64) {
+	c := int64(0)
+	if v != ApiValue && (h.c.Req == nil || v != h.c.Req.ID) {
+		c = 16
+	}
+	simrt.Emit(EvAlias, int64(h.c.Idx), r, c)
+}
+
 // Fa is the injected function fa(r, x).
 func (h *H) Fa(r, x int64) int64 { return x }
 
@@ -327,7 +349,13 @@ func (h *H) Data() map[string]interface{} {
 	d["Req"] = c.Req
 	d["Resp"] = c.Resp
 	if c.UseTag || h.sc.NeedTag {
-		c.Tag = &engine.Stag{}
+		if c.PresetTag && h.sc.lastTag != nil {
+			c.Tag = h.sc.lastTag // the caller keeps one Stag object and does not lower it between calls
+		} else {
+			c.Tag = &engine.Stag{}
+		}
+		c.TagAtEntry = c.Tag.StopTag
+		h.sc.lastTag = c.Tag
 		d["Tag"] = c.Tag
 	}
 	c.mu.Unlock()
@@ -393,6 +421,8 @@ func (h *H) Data() map[string]interface{} {
 				}
 			case SecIfKind, SecForKind:
 				needVC = true
+			case SecElifCall:
+				d[fmt.Sprintf("VB%d", id)] = false
 			case SecElif:
 				needVC = true
 				d[fmt.Sprintf("VB%d", id)] = false
